@@ -726,15 +726,19 @@ def installed(sched, net):
     ft, fth, fsel = FakeTime(sched), FakeThreading(sched), FakeSelectors(sched)
     saved = [
         (APP, "time", APP.time), (APP, "threading", APP.threading), (CORE, "time", CORE.time), (CORE, "threading", CORE.threading),
-        (D, "time", D.time), (D, "selectors", D.selectors), (SK, "selectors", SK.selectors), (A, "Lock", A.Lock),
+        (D, "time", D.time), (D, "selectors", D.selectors), (SK, "selectors", SK.selectors),
         (H, "socket", H.socket), (H, "ssl", H.ssl),
     ]
+    has_frame_lock = hasattr(A, "Lock")  # the frame parser's own lock (absent if a change removed it: nothing to substitute then)
+    if has_frame_lock:
+        saved.append((A, "Lock", A.Lock))
     if hasattr(APP, "selectors"):
         saved.append((APP, "selectors", APP.selectors))
         APP.selectors = fsel
     APP.time, APP.threading, CORE.time, CORE.threading = ft, fth, ft, fth
     D.time, D.selectors, SK.selectors = ft, fsel, fsel
-    A.Lock = lambda: SimLock(sched, "frame")
+    if has_frame_lock:
+        A.Lock = lambda: SimLock(sched, "frame")
     H.socket, H.ssl = _SockMod(net), _SSLMod(net)
     try:
         yield
